@@ -13,5 +13,6 @@ CONSTANTS
   FreshModelPerCall = TRUE
   DefaultsUntouched = TRUE
   OrderedIteration = TRUE
+  SummaryStateless = TRUE
 INVARIANT Functional
 CHECK_DEADLOCK FALSE
